@@ -249,7 +249,39 @@ func (g *mgen) plant(m *openfgav1.AuthorizationModel, terms, objs, rels []string
 		td.Relations[rel] = us
 		td.Metadata.Relations[rel] = &openfgav1.RelationMetadata{DirectlyRelatedUserTypes: refs}
 	}
-	switch r.Intn(12) {
+	u1 := terms[len(terms)-1]
+	switch r.Intn(16) {
+	case 12: // VALID: intersection whose TTU operand fans out to parent types reaching different user types
+		if len(objs) >= 2 {
+			o2 := objs[(r.Intn(len(objs)-1)+1+indexOf(objs, o))%len(objs)]
+			set("p", This(), RefType(o), RefType(o2))
+			set(b, This(), RefType(u))
+			for _, td2 := range m.TypeDefinitions {
+				if td2.GetType() == o2 {
+					td2.Relations[b] = This()
+					td2.Metadata.Relations[b] = &openfgav1.RelationMetadata{DirectlyRelatedUserTypes: []*openfgav1.RelationReference{RefType(u1)}}
+				}
+			}
+			if a != b {
+				set(a, Inter(This(), TTU(b, "p")), RefType(u), RefType(u1))
+			}
+		}
+	case 13: // VALID: exclusion with a multi-type base and a multi-parent TTU subtract
+		if a != b {
+			set(b, This(), RefType(u1))
+			set(a, Diff(This(), TTU(b, "p")), RefType(u), RefType(u1), RefWild(u))
+		}
+	case 14: // VALID: two TTUs with the same computed relation over different tuplesets under an intersection
+		if a != b {
+			set("q", This(), RefType(o))
+			set(b, This(), RefType(u), RefType(u1))
+			set(a, Inter(TTU(b, "p"), TTU(b, "q")))
+		}
+	case 15: // VALID: nested operators mixing all three kinds over one multi-type direct assignment
+		if a != b {
+			set(b, This(), RefType(u))
+			set(a, Union(Inter(This(), Computed(b)), Diff(Computed(b), TTU(b, "p"))), RefType(u), RefType(u1))
+		}
 	case 0: // tuple-free self loop next to a tuple cycle
 		set(a, Union(This(), Computed(a)), RefType(u), RefRel(o, a))
 	case 1: // plain self reference
@@ -290,6 +322,15 @@ func (g *mgen) plant(m *openfgav1.AuthorizationModel, terms, objs, rels []string
 			set(b, Diff(Computed(a), TTU(a, "p")))
 		}
 	}
+}
+
+func indexOf(xs []string, x string) int {
+	for i, v := range xs {
+		if v == x {
+			return i
+		}
+	}
+	return 0
 }
 
 // ---- pretty printers (witness display and structural keys) ----
